@@ -56,12 +56,19 @@ def run(ctx):
         raise vlib.Infra("negative control of the commit store replay failed")
     out = ctx.vh("commit-replay", {"edges": cedges}, timeout=6000)
     ctx.add_result(out, kind="commit-store")
+    # third part: real processes, the real flock locker, real SIGKILLs and real write failures (RLIMIT_FSIZE)
+    neg = ctx.vh("cache-procs", {"exe": ctx.harness(), "corrupt": True})
+    if not neg["violations"]:
+        raise vlib.Infra("negative control of the multi-process stage failed")
+    out = ctx.vh("cache-procs", {"exe": ctx.harness()}, timeout=6000)
+    ctx.add_result(out, kind="processes")
     ctx.exhaustive = True
     ctx.assumptions += [
+        "multi-process stage: one storing child process per scenario on a real disk bucket with the real flock locker, killed before each of its storage operations (and at the points inside the disk atomic writer) or run under every file size limit up to the largest file; the parent then loads and a second child repairs",
         "commit store: two keys, nine contents per file (absent, valid, valid with another digest, six unusable forms); puts fail as a whole (the put is atomic); the delegate is an in-process provider",
         "one cache entry; module files copied one after the other (thread parallelism 1) so that every storage operation is one specification step",
-        "locks are an in-process table behind filelock.Locker whose acquisition order is dictated by the tour; the real flock implementation is exercised by the multi-process stage of the thorough tier only",
+        "in the tours locks are an in-process table behind filelock.Locker whose acquisition order is dictated by the tour; the real flock implementation is used by the multi-process stage",
         "write faults are injected at Put / first Write of module files and at the Put of the marker; failures inside the disk atomic writer itself are covered by C15",
         "a crashed process is a goroutine parked for good at the operation it was about to perform",
     ]
-    return vlib.finish(ctx, rule="every transition of ModuleCache.tla for each configuration (layout dir/tar, 2-3 processes put/get, 1-3 files, <=2 faults, <=2 crashes, <=1 tamper), covered by tours replayed on real ModuleDataStore instances over one real disk bucket; after every step the cache directory is classified and compared; plus every transition of CommitCache.tla (put, get by module key / commit key, caching provider with failing delegate / failing put, over every content of two commit files) replayed on the real CommitStore and CommitProvider; distinct = tours + commit-store transitions")
+    return vlib.finish(ctx, rule="every transition of ModuleCache.tla for each configuration (layout dir/tar, 2-3 processes put/get, 1-3 files, <=2 faults, <=2 crashes, <=1 tamper), covered by tours replayed on real ModuleDataStore instances over one real disk bucket; after every step the cache directory is classified and compared; plus every transition of CommitCache.tla (put, get by module key / commit key, caching provider with failing delegate / failing put, over every content of two commit files) replayed on the real CommitStore and CommitProvider; plus the multi-process stage (SIGKILL before every storage step, a real write failure at every size limit; load, then repair); distinct = tours + commit-store transitions + process scenarios")
